@@ -24,3 +24,5 @@ def run(ctx):
     S.r12_sinks(ctx)
     from . import dumpside as D
     D.r12_6_options_forwarded(ctx)
+    from . import round3 as R3
+    R3.r12_7_source_independence(ctx)
